@@ -145,7 +145,7 @@ func cmdWorker(t *testing.T, args []string) int {
 		fmt.Println("worker:", err)
 		return 2
 	}
-	if job.Profile == "conc" {
+	if job.Profile == "conc" || job.Profile == "snap" {
 		curPlanFile = job.Out + ".cur"
 	}
 	out := &WorkerOut{Kinds: map[string]int{}, Trans: map[string]int{}, FaultsConf: map[string]int{}, FaultsHit: map[string]int{}, Probes: map[string]int{}, Foreign: map[string]int{}, OwnSigs: map[string]int{}}
@@ -526,6 +526,15 @@ func cmdMinimize(t *testing.T, args []string) int {
 		return 2
 	}
 	m := minimise(t, plan, plan.Violation.Sig, 1500)
+	if strings.HasPrefix(plan.Violation.Sig, "fatal:") {
+		// executing it here would kill this process: every kept candidate was verified in a process of its own
+		m.Violation = plan.Violation
+		m.Note = fmt.Sprintf("minimised from %d ops / %d faults to %d ops / %d faults; replay: tools/check.sh %s --replay <this file>", plan.NumOps(), plan.NumFaults(), m.NumOps(), m.NumFaults(), m.Prop)
+		if err := SavePlan(args[1], m); err != nil {
+			return 2
+		}
+		return 0
+	}
 	res := ExecuteChecked(t, m, execOptFor(m.Prop))
 	v, ok := sigOf(res, m.Prop)
 	if !ok || v.Sig != plan.Violation.Sig {
@@ -689,7 +698,7 @@ func cmdCheck(args []string) int {
 	il, nt, states := map[uint64]bool{}, map[uint64]bool{}, map[uint64]bool{}
 	for w := 0; w < workers; w++ {
 		if results[w].code != 0 {
-			if cv := crashViolation(results[w].out); cv != nil && cfg.Profile == "conc" {
+			if cv := crashViolation(results[w].out); cv != nil && cv.Has(prop) {
 				if plan, err := LoadPlan(results[w].file + ".cur"); err == nil {
 					total.OwnCount++
 					total.OwnSigs[cv.Sig]++
@@ -697,7 +706,7 @@ func cmdCheck(args []string) int {
 					continue
 				}
 			}
-			fmt.Printf("worker %d failed (exit %d):\n%s\n", w, results[w].code, tail(results[w].out, 3000))
+			fmt.Printf("worker %d failed (exit %d):\n%s\n", w, results[w].code, head(results[w].out, 4000))
 			return 2
 		}
 		b, err := os.ReadFile(results[w].file)
@@ -1103,17 +1112,40 @@ func ExecuteChecked(t *testing.T, plan *Plan, opt ExecOpt) *RunResult {
 }
 
 var fatalRe = regexp.MustCompile(`(?m)^fatal error: (concurrent map[^\n]*)`)
+var faultRe = regexp.MustCompile(`(?m)^(unexpected fault address|fatal error: fault|\[signal SIG(BUS|SEGV)[^\n]*)`)
 
-// crashViolation recognises a process-level crash caused by unsynchronised access in the library under test.
+// crashViolation recognises a process-level crash caused by the library under test: unsynchronised map access
+// (conc profile), or a memory fault while a snapshot file is opened / marked / restored (snap profile: a snapshot
+// that is not a consistent copy makes bbolt fault on its mmap).
 func crashViolation(output string) *Violation {
-	m := fatalRe.FindStringSubmatch(output)
-	if m == nil || !strings.Contains(output, "github.com/openziti/storage/") {
+	if !strings.Contains(output, "github.com/openziti/storage/") {
 		return nil
 	}
-	excerpt := output[strings.Index(output, m[0]):]
-	if len(excerpt) > 3000 {
-		excerpt = excerpt[:3000] + "\n   ..."
+	excerptFrom := func(idx int) string {
+		e := output[idx:]
+		if len(e) > 3000 {
+			e = e[:3000] + "\n   ..."
+		}
+		return e
 	}
-	return &Violation{Props: []string{"C18"}, Oracle: "crash", Sig: "fatal:" + strings.ReplaceAll(m[1], " ", "-"),
-		Detail: "the process died with an unrecoverable runtime error while steps of a race window ran concurrently:\n" + excerpt}
+	if m := fatalRe.FindStringSubmatchIndex(output); m != nil {
+		return &Violation{Props: []string{"C18"}, Oracle: "crash", Sig: "fatal:" + strings.ReplaceAll(output[m[2]:m[3]], " ", "-"),
+			Detail: "the process died with an unrecoverable runtime error while steps of a race window ran concurrently:\n" + excerptFrom(m[0])}
+	}
+	if m := faultRe.FindStringIndex(output); m != nil {
+		for _, fn := range []string{"MarkAsSnapshot", "SnapshotInTx", "RestoreFromReader", "RestoreSnapshot", "StreamToWriter"} {
+			if strings.Contains(output, "boltz.(*DbImpl)."+fn) {
+				return &Violation{Props: []string{"C17"}, Oracle: "crash", Sig: "fatal:memory-fault-in-" + fn,
+					Detail: "the process died with a memory fault inside " + fn + " (a snapshot file that is not a consistent copy of one committed state):\n" + excerptFrom(m[0])}
+			}
+		}
+	}
+	return nil
+}
+
+func head(s string, n int) string {
+	if len(s) > n {
+		return s[:n] + "..."
+	}
+	return s
 }
